@@ -11,6 +11,7 @@ import numpy as np
 
 from rv import core, zoo, monitors
 
+ANCHORS = ['to_rfi', 'FCSData.__new__']      # functions the property is anchored in: never entered => inconclusive
 LEVEL = 'exploration'
 LEVEL_TEXT = 'Contract on the real to_rfi evaluated on every call (direct, repository tests): the law is recomputed from settings the oracle derives itself from the keywords/overrides; batch == sequential == by-name == by-position exactly; inconsistent lengths must raise. Exploration with an exhaustive subset/order block.'
 TECHNIQUE = 'runtime contract on to_rfi with keyword-derived law oracle + call-history equivalence checker'
